@@ -12,6 +12,7 @@ import (
 	"fmt"
 	"math/rand"
 	"os"
+	"runtime"
 	"strconv"
 	"sync"
 	"sync/atomic"
@@ -168,26 +169,43 @@ func vfC19Pre(n int) []byte {
 
 // vfC19Print: String() and ParseUUID back; MarshalText / json.Marshal and back through
 // UnmarshalText / json.Unmarshal into destinations that already hold another UUID.
+// Everything printed is HELD by the harness like a caller holds it: "s", "mt", "js" are the texts
+// right after the call, "s2", "mt2", "js2" the same objects read again after further UUIDs have been
+// printed (vfC19Writer re-reads them later; the concurrent driver after yielding), and
+// "tback2" / "jback2" what the held MarshalText / MarshalJSON output parses to at that later point.
 func vfC19Print(b []byte) vfC19Vec {
 	v := vfC19Vec{"k": "print", "u": vfC19Ints(b), "s": []int{}, "backok": false, "back": []int{},
-		"tbackok": false, "tback": []int{}, "jbackok": false, "jback": []int{}, "panic": ""}
+		"tbackok": false, "tback": []int{}, "jbackok": false, "jback": []int{},
+		"mt": []int{}, "js": []int{}, "s2": []int{}, "mt2": []int{}, "js2": []int{},
+		"tback2ok": false, "tback2": []int{}, "jback2ok": false, "jback2": []int{}, "panic": ""}
+	var heldS string
+	var heldT, heldJ []byte
+	got := false
 	v["panic"] = vfC19Guard(func() {
 		u, err := UUIDFromBytes(b)
 		if err != nil {
 			panic(err)
 		}
-		s := u.String()
-		v["s"] = vfC19Codes(s)
-		back, err := ParseUUID(s)
+		heldS = u.String()
+		v["s"] = vfC19Codes(heldS)
+		back, err := ParseUUID(heldS)
 		if err == nil {
 			v["backok"] = true
 			v["back"] = vfC19Ints(back[:])
 		}
 		var t UUID
 		copy(t[:], vfC19Pre(int(b[0])))
-		if mt, err := u.MarshalText(); err == nil && (&t).UnmarshalText(mt) == nil {
-			v["tbackok"] = true
-			v["tback"] = vfC19Ints(t[:])
+		if mt, err := u.MarshalText(); err == nil {
+			heldT = mt
+			v["mt"] = vfC19Codes(string(mt))
+			if (&t).UnmarshalText(mt) == nil {
+				v["tbackok"] = true
+				v["tback"] = vfC19Ints(t[:])
+			}
+		}
+		if mj, err := u.MarshalJSON(); err == nil {
+			heldJ = mj
+			v["js"] = vfC19Codes(string(mj))
 		}
 		rec := vfC19Rec{N: 1}
 		copy(rec.ID[:], vfC19Pre(int(b[1])))
@@ -195,7 +213,31 @@ func vfC19Print(b []byte) vfC19Vec {
 			v["jbackok"] = true
 			v["jback"] = vfC19Ints(rec.ID[:])
 		}
+		got = true
 	})
+	v["_re"] = func() {
+		if !got {
+			return
+		}
+		if pan := vfC19Guard(func() {
+			v["s2"] = vfC19Codes(heldS)
+			v["mt2"] = vfC19Codes(string(heldT))
+			v["js2"] = vfC19Codes(string(heldJ))
+			var t, j UUID
+			copy(t[:], vfC19Pre(int(b[2])))
+			copy(j[:], vfC19Pre(int(b[3])))
+			if (&t).UnmarshalText(heldT) == nil {
+				v["tback2ok"] = true
+				v["tback2"] = vfC19Ints(t[:])
+			}
+			if (&j).UnmarshalJSON(heldJ) == nil {
+				v["jback2ok"] = true
+				v["jback2"] = vfC19Ints(j[:])
+			}
+		}); pan != "" {
+			v["panic"] = pan
+		}
+	}
 	return v
 }
 
@@ -283,12 +325,17 @@ func vfC19Now() vfC19Vec {
 
 // ---------------------------------------------------------------- drivers
 
+// vfC19Writer delays every record by vfC19Window later records; values the real code returned stay
+// held meanwhile and are re-read ("_re") just before the record is written.
 type vfC19Writer struct {
-	f   *os.File
-	w   *bufio.Writer
-	enc *json.Encoder
-	n   int
+	f    *os.File
+	w    *bufio.Writer
+	enc  *json.Encoder
+	n    int
+	held []interface{}
 }
+
+const vfC19Window = 6
 
 func vfC19Create(t *testing.T, path string) *vfC19Writer {
 	f, err := os.Create(path)
@@ -299,14 +346,32 @@ func vfC19Create(t *testing.T, path string) *vfC19Writer {
 	return &vfC19Writer{f: f, w: w, enc: json.NewEncoder(w)}
 }
 
-func (w *vfC19Writer) put(v interface{}) {
-	if err := w.enc.Encode(v); err != nil {
+func (w *vfC19Writer) write(x interface{}) {
+	if v, ok := x.(vfC19Vec); ok {
+		if re, ok := v["_re"].(func()); ok {
+			re()
+		}
+		delete(v, "_re")
+	}
+	if err := w.enc.Encode(x); err != nil {
 		panic(err)
 	}
+}
+
+func (w *vfC19Writer) put(v interface{}) {
 	w.n++
+	w.held = append(w.held, v)
+	if len(w.held) > vfC19Window {
+		w.write(w.held[0])
+		w.held = w.held[1:]
+	}
 }
 
 func (w *vfC19Writer) close() {
+	for _, v := range w.held {
+		w.write(v)
+	}
+	w.held = nil
 	w.w.Flush()
 	w.f.Close()
 }
@@ -389,7 +454,13 @@ var vfC19Alphabet = func() []int {
 		}
 		a = append(a, 0x110000+c+0x80)
 	}
-	return append(a, 0x110000+0x80, 0x110000+0xBF, 0x110000+0xC0, 0x110000+0xFE, 0x110000+0xFF)
+	for c := 0; c < 256; c++ { // the whole byte range: as code points and (from 128) as lone bytes
+		a = append(a, c)
+		if c >= 128 {
+			a = append(a, 0x110000+c)
+		}
+	}
+	return a
 }()
 
 func vfC19RandString(rng *rand.Rand) []int {
@@ -583,4 +654,53 @@ func TestVfC19WrapDemo(t *testing.T) {
 	}
 	u2 := UUIDFromTime(tm)
 	fmt.Printf("VFWRAP first=%s after_16384_calls=%s equal=%v\n", u1, u2, u1 == u2)
+}
+
+// TestVfC19PrintConcurrent: VF_G goroutines each print their own random UUIDs (String, MarshalText,
+// MarshalJSON), hold what they got, yield so that other goroutines print other UUIDs, and read the
+// held texts again.  Once with 2 Ps (several goroutines share a P) and once with all Ps.
+func TestVfC19PrintConcurrent(t *testing.T) {
+	vec := vfC19Create(t, vfC19Env(t, "VF_VECTORS"))
+	defer vec.close()
+	seed, _ := strconv.ParseInt(os.Getenv("VF_SEED"), 10, 64)
+	g, _ := strconv.Atoi(os.Getenv("VF_G"))
+	m, _ := strconv.Atoi(os.Getenv("VF_M"))
+	if g == 0 || m == 0 {
+		t.Fatal("VF_G, VF_M required")
+	}
+	for phase, procs := range []int{2, runtime.NumCPU()} {
+		old := runtime.GOMAXPROCS(procs)
+		got := make([][]vfC19Vec, g)
+		var wg sync.WaitGroup
+		start := make(chan struct{})
+		for gi := 0; gi < g; gi++ {
+			wg.Add(1)
+			go func(gi int) {
+				defer wg.Done()
+				rng := rand.New(rand.NewSource(seed*2750159 + int64(phase*1000+gi)))
+				<-start
+				for j := 0; j < m; j++ {
+					b := make([]byte, 16)
+					rng.Read(b)
+					v := vfC19Print(b)
+					for y := rng.Intn(3); y >= 0; y-- {
+						runtime.Gosched()
+					}
+					v["_re"].(func())()
+					delete(v, "_re")
+					v["g"] = gi
+					got[gi] = append(got[gi], v)
+				}
+			}(gi)
+		}
+		close(start)
+		wg.Wait()
+		runtime.GOMAXPROCS(old)
+		for _, vs := range got {
+			for _, v := range vs {
+				vec.put(v)
+			}
+		}
+	}
+	fmt.Printf("VFSUMMARY {\"vectors\":%d}\n", vec.n)
 }
